@@ -70,6 +70,8 @@ def main(argv=None):
         assumptions.update(er.get('assumptions', []))
         for u in er.get('units', []):
             units[u['unit']] = u
+    # a finding's witness obligation belongs to the finding's own property only
+    results = [r for r in results if not (r.get('finding') and findings.get(r['finding'], {}).get('status') == 'known' and findings[r['finding']]['property'] != prop)]
     required = [r for r in results if not (r.get('finding') and findings.get(r['finding'], {}).get('status') == 'known')]
     witness = [r for r in results if r.get('finding') and findings.get(r['finding'], {}).get('status') == 'known']
     valid = [r for r in required if r['verdict'] == 'valid']
